@@ -89,8 +89,10 @@ func (o OracleC10) After(x *Exec, op *Op, res *Res) {
 		// tolerance: two base units, plus the module's own truncation of the alliance-bonded
 		// amount (up to one unit per bonded validator, scaled by the weights), plus the
 		// staking exchange rate (a delegation of x tokens is worth x to within one share unit)
+		// tolerance: two base units, plus the module's truncation of the alliance-bonded total
+		// (less than one unit, scaled by the weights), plus the staking exchange rate
 		tol := big.NewRat(2, 1)
-		tol.Add(tol, new(big.Rat).Mul(sumW, big.NewRat(int64(nBonded+1), 1)))
+		tol.Add(tol, new(big.Rat).Mul(sumW, big.NewRat(2, 1)))
 		tol.Add(tol, new(big.Rat).Mul(target, big.NewRat(1, 1_000_000_000_000_000)))
 		if s.Vals[i].Shares.IsPositive() && !s.Vals[i].Tokens.IsZero() {
 			// tokens per share > 1 makes each share unit worth more than one token
